@@ -138,6 +138,79 @@ func CheckC17(c *Ctx) {
 		}
 		c.Extra["inputs_v"+v.Name] = len(inputs)
 	}
+	// history-dependent allocations: the budget must also hold for a call that directly follows
+	// a DIFFERENT call -- a rejected vector of every error kind, a vector of another length, an
+	// erroring Get/Set -- e.g. an error path that forgets to return a pooled buffer makes the NEXT
+	// successful ParseVector allocate it again.
+	calib := probe.MeasureAllocsAfter(func() {}, func() {}, 5, 40)
+	c.Extra["history_measurement_calibration_allocs(no-op)"] = calib
+	if calib > 0.02 {
+		c.Inconclusive = append(c.Inconclusive, fmt.Sprintf("MemStats bracketing itself shows %.2f allocations per call", calib))
+	}
+	for vi, v := range spec.Versions {
+		alpha := c14Alphabet(c.Rand("history-pre", v.Name), v)
+		// plus one single-defect vector per (defect kind, position) of C18's injector on a full and a minimal vector
+		{
+			seenKP := map[string]bool{}
+			ri := c.Rand("history-inject", v.Name)
+			for _, src := range []string{v.Canonical(gen.Background(ri, v, 1)), v.Canonical(v.ZeroAssign()), v.Canonical(gen.KSparseAssign(ri, v, 5))} {
+				inject(ri, v, src, func(d defect) {
+					k := fmt.Sprint(d.kind, d.pos, len(src))
+					if !seenKP[k] {
+						seenKP[k] = true
+						alpha = append(alpha, d.s)
+					}
+				})
+			}
+		}
+		r := c.Rand("history-f", v.Name)
+		var targets []string
+		targets = append(targets, v.Canonical(v.ZeroAssign()), v.Canonical(gen.Background(r, v, 1)))
+		for k := 0; k < c.Pick(2, 16); k++ {
+			sp, _ := gen.RandomSpelling(r, v, gen.MixedAssign(r, v))
+			targets = append(targets, sp)
+		}
+		pairs := 0
+		for _, tgt := range targets {
+			ops, err := probe.AllocOps(vi, tgt, []string{v.Metrics[0].Abv}, [][2]string{{v.Metrics[0].Abv, v.Metrics[0].Values[0]}, {v.Metrics[0].Abv, "not-a-value"}})
+			if err != nil {
+				continue
+			}
+			for _, preS := range alpha {
+				pre := probe.ParseOnly(vi, preS)
+				for _, op := range ops {
+					if op.Name != "ParseVector" && op.Name != "Vector" && pairs%5 != 0 {
+						continue // scores / Get / Set after every 5th predecessor only
+					}
+					best := -1.0
+					ok := false
+					for try := 0; try < 4 && !ok; try++ {
+						m := probe.MeasureAllocsAfter(pre, op.F, 3, 24)
+						if best < 0 || m < best {
+							best = m
+						}
+						if op.Exact {
+							ok = best >= float64(op.Budget)-0.05 && best <= float64(op.Budget)+0.05
+							if best < float64(op.Budget)-0.05 {
+								break
+							}
+						} else {
+							ok = best <= float64(op.Budget)+0.05
+						}
+					}
+					c.Evals += 27
+					c.Counts["measured-after-another-call:"+op.Name]++
+					if !ok {
+						c.Violate(Violation{Kind: "allocation-budget-exceeded-after-another-call", Version: v.Name, Steps: []Step{{Op: "parse", S: preS}, {Op: "parse", S: tgt}},
+							Expected: fmt.Sprintf("%s(%s): budget %d heap allocation(s) also when it directly follows ParseVector(%q)", op.Name, op.Arg, op.Budget, preS),
+							Observed: fmt.Sprintf("%.2f per call (minimum of the means of up to 4 runs of 24 bracketed calls)", best), Detail: map[string]any{"op": op.Name}})
+					}
+				}
+				pairs++
+			}
+		}
+		c.Extra["history_pairs_v"+v.Name] = pairs
+	}
 	for _, x := range []float64{0, 0.05, 0.1, 3.9, 4.0, 5.4, 7.0, 8.9, 9.0, 10.0, -0.1, 10.1, 1e300, -1e300} {
 		for _, op := range probe.RatingOps(x) {
 			op.Arg = fstr(x)
@@ -149,7 +222,7 @@ func CheckC17(c *Ctx) {
 	c.Extra["toolchain"] = runtime.Version()
 	c.Extra["calls_per_measurement"] = n
 	c.SetReport(Report{
-		Rule:        "steady-state heap allocations per call measured with runtime.MemStats.Mallocs around " + fmt.Sprint(n) + " calls after " + fmt.Sprint(warm) + " warm-up calls, GOMAXPROCS(1), GC off, concrete methods called directly, results kept alive in package-level sinks; minimum over up to 4 repetitions (stray runtime allocations only add). Budget: successful ParseVector <= 1, Vector() == 1, Get/Set on a known metric (legal and illegal values), every scoring method, Rating, Nomenclature == 0. Inputs: no optional metric, all, every optional metric alone x every value (incl. all U spellings) x 2 base backgrounds, canonical and with every X/ND written explicitly, all-but-one, seeded random subsets/spellings (v3 shuffled). evaluations = measured calls; distinct = distinct input vectors",
+		Rule:        "steady-state heap allocations per call measured with runtime.MemStats.Mallocs around " + fmt.Sprint(n) + " calls after " + fmt.Sprint(warm) + " warm-up calls, GOMAXPROCS(1), GC off, concrete methods called directly, results kept alive in package-level sinks; minimum over up to 4 repetitions (stray runtime allocations only add). Budget: successful ParseVector <= 1, Vector() == 1, Get/Set on a known metric (legal and illegal values), every scoring method, Rating, Nomenclature == 0. Also measured with MemStats read between a PRECEDING call (each of ~40 valid/invalid vectors per version, every error kind) and the measured call, so that an allocation pushed onto the next call by an earlier one (pool buffer not returned on an error path) is seen. Inputs: no optional metric, all, every optional metric alone x every value (incl. all U spellings) x 2 base backgrounds, canonical and with every X/ND written explicitly, all-but-one, seeded random subsets/spellings (v3 shuffled). evaluations = measured calls; distinct = distinct input vectors",
 		Assumptions: []string{"a property of the compiled program: decided for the toolchain in this image (" + runtime.Version() + "), plain build (no -race: the race runtime makes sync.Pool drop Puts)"},
 	})
 	c.Finish()
